@@ -60,8 +60,22 @@ def make_case(index, rng, tier):
         c = rng.choice(clients)
         c["t"] = h["t"]
         h["tick"] = None
-    return {"family": fam, "kind": kind, "workers": rng.randrange(1, 4), "hups": hups, "clients": clients,
-            "fine": rng.choice([0, 0, 2, 3]), "bind": rng.choice(["127.0.0.1:8000", "127.0.0.1:8000", "localhost:8000"]),
+    workers = rng.randrange(1, 4)
+    fine, fine_long = rng.choice([0, 0, 2, 3]), rng.randrange(2) == 0
+    load_delay = rng.choice([0, 0, 0.3, 1.0])
+    directed = False
+    if fam == "full" and rng.randrange(5) == 0:
+        # directed: an idle old worker, one HUP at the very instant a client connects, fine-grained scheduling with long
+        # descheduling - the old worker's TERM can land between its `while self.alive` check and accept()
+        workers = 1
+        t0 = round(rng.uniform(0.5, 2.0), 2)
+        hups = [{"t": t0, "workers": rng.randrange(1, 3), "tick": None}]
+        clients = [{"t": t0, "dur": 0}] + [{"t": round(t0 + 0.2 * (i + 1), 2), "dur": 0} for i in range(rng.randrange(0, 3))]
+        fine, fine_long = 2, True
+        load_delay = rng.choice([0.3, 0.6, 1.0])
+        directed = True
+    return {"family": fam, "app_load_delay": load_delay, "fine_workers_only": directed, "kind": kind, "workers": workers, "hups": hups, "clients": clients,
+            "fine": fine, "fine_long": fine_long, "bind": rng.choice(["127.0.0.1:8000", "127.0.0.1:8000", "localhost:8000"]),
             "graceful_timeout": rng.choice([2, 3, 4]), "threads": rng.randrange(1, 3),
             "buggify": {"pyticks": rng.randrange(3) == 0, "fork_child_first": rng.randrange(2) == 0, "spurious_select": rng.randrange(3) == 0,
                         "random_spawn_delay": rng.randrange(2) == 0, "short_recv": rng.randrange(4) == 0}}
@@ -75,6 +89,9 @@ def run(case, choices):
         preempt.enable()
         sim.py_ticks = True          # eval-breaker points inside gunicorn's Python code are delivery / pre-emption points too
     sim.fine_interleave = case.get("fine", 0)
+    sim.fine_long = bool(case.get("fine_long"))
+    if case.get("fine_workers_only"):
+        sim.fine_filter = lambda t: t.proc.name.startswith("worker")        # only worker threads are pre-empted
     gt = case["graceful_timeout"]
     fam = case["family"]
     cfg = {"workers": case["workers"], "timeout": 30, "graceful_timeout": gt, "bind": [case.get("bind", "127.0.0.1:8000")], "proc_name": "m0",
@@ -83,6 +100,7 @@ def run(case, choices):
     if fam == "full":
         w.cfgsrc.update({"threads": case["threads"], "keepalive": 0, "worker_connections": 10})
         w.use_real_workers(case["kind"])
+        w.app_load_delay = case.get("app_load_delay", 0)
     m = w.start_master()
     state = {"hup_handled": [], "ofd": None, "pre_ages": [], "closed_listener": [], "killed": [], "markers": ["m0"]}
 
